@@ -21,11 +21,15 @@ IGNORE_SPELLINGS = [(['case'], 'ignore(case)'), (['case', ','], 'ignore(case,)')
 
 
 class Attr:
-    def __init__(self, kind, is_bytes, pat, pieces, trailing):
+    def __init__(self, kind, is_bytes, pat, pieces, trailing, raw=None):
         self.kind, self.is_bytes, self.pat, self.pieces, self.trailing = kind, is_bytes, pat, pieces, trailing
+        self.raw = raw            # byte-string literal given by its bytes (tokens in byte mode)
+
+    def value(self):
+        return self.raw if self.raw is not None else self.pat.encode('utf-8')
 
     def lit(self):
-        return rust_bytes(self.pat.encode('utf-8')) if self.is_bytes else rust_str(self.pat)
+        return rust_bytes(self.value()) if self.is_bytes else rust_str(self.pat)
 
     def body(self):
         return ', '.join([self.lit()] + [p['text'] for p in self.pieces]) + (',' if self.trailing else '')
@@ -130,7 +134,12 @@ def gen(R, k):
             pc = piece(R, gid, allow_positional=(j == 0), malformed=malformed and R.random() < 0.5, used=used)
             if pc is not None:
                 pieces.append(pc)
-        return Attr(kind, is_bytes, p, pieces, trailing=R.random() < 0.2 and len(pieces) > 0)
+        raw = None
+        if kind == 't' and utf8 is False and R.random() < 0.35:
+            # a byte-string token with a byte at the ASCII border / above it (escaped as \\xNN when ignore(case) is given)
+            raw = p[:3].encode() + bytes([R.choice([0x00, 0x7f, 0x80, 0x81, 0xbf, 0xff])]) + R.choice([b'', b'k', b'.'])
+            is_bytes = True
+        return Attr(kind, is_bytes, p, pieces, trailing=R.random() < 0.2 and len(pieces) > 0, raw=raw)
     skips = [attr('r') for _ in range(R.choice([0, 0, 1, 2]))]
     variants = []
     for j in range(R.choice([1, 2, 3])):
@@ -225,15 +234,15 @@ def tie(run, seed, n, report=True, refmatch=None):
         it = iter(info)
         sk = [next(it) for _ in d['skips']]
         pipe = dict(subs=[(nm.encode(), 's', body.encode('utf-8')) for (nm, body) in d['subs']] + [(nm.encode(), 'b', body.encode()) for (nm, body) in d.get('bsubs', [])],
-                    items=[('r', 'b' if i['attr'].is_bytes else 's', i['icase'], i['attr'].pat.encode('utf-8')) for i in sk])
+                    items=[('r', 'b' if i['attr'].is_bytes else 's', i['icase'], i['attr'].value()) for i in sk])
         asm = ['s:%s:%d' % ('-' if i['prio'] is None else i['prio'], 1 if i['cb'] else 0) for i in sk]
         for (vn, shape, attrs) in d['variants']:
             asm.append('v:%s:%s' % (vn, shape))
             for a in attrs:
                 i = next(it)
                 if shape != 't0':
-                    pipe['items'].append((a.kind, 'b' if a.is_bytes else 's', i['icase'], a.pat.encode('utf-8')))
-                asm.append('a:%s:%s:%d:%d' % (a.kind, '-' if i['prio'] is None else i['prio'], 1 if i['cb'] else 0, len(a.pat.encode('utf-8'))))
+                    pipe['items'].append((a.kind, 'b' if a.is_bytes else 's', i['icase'], a.value()))
+                asm.append('a:%s:%s:%d:%d' % (a.kind, '-' if i['prio'] is None else i['prio'], 1 if i['cb'] else 0, len(a.value())))
         lines2.append('CASE h%d' % k)
         rq = TP.request(pipe)
         if rq:
@@ -244,7 +253,13 @@ def tie(run, seed, n, report=True, refmatch=None):
     stats = dict(definitions=n, predicted_refused=0, predicted_accepted=0, agree=0, differ=0, samples=[])
     for k, d in enumerate(defs):
         cap, pr = caps[k], pre[k]
-        if cap is None or pr is None or cap.verdict not in ('ACCEPT', 'REJECT'):
+        if cap is None or pr is None:
+            continue
+        if cap.verdict not in ('ACCEPT', 'REJECT'):
+            stats['differ'] += 1
+            if report:
+                run.violation('derive-crash', dict(definition=srcs[k], derive_verdict=cap.verdict, message=getattr(cap, 'panic_msg', None),
+                                                   what='the derive does not return (panic / crash) on a generated definition'), key='defgen-crash|' + srcs[k])
             continue
         errs, info, rq, aq, pipe = pr
         tp = TP.parse_answer(ans2.get('h%d %s' % (k, rq[2:]))) if rq else (0, [])
